@@ -20,21 +20,28 @@ const DECLS: &str = "commodity USD\n\ncommodity EUR\n\ncommodity JPY\n\ncommodit
 /// The same commodities with display formats: evaluation stays exact whatever precision is declared.
 const DECLS_FMT: &str = "commodity USD\n    format 1,000.00 USD\n\ncommodity EUR\n    format 1,000.0 EUR\n\ncommodity JPY\n    format 1,000 JPY\n\ncommodity AAPL\n    format 1,000.0000 AAPL\n\n";
 
+thread_local! {
+    static ERR_BOUND: std::cell::Cell<f64> = const { std::cell::Cell::new(0.0) };
+}
+
 /// Does the observed multi-commodity value match the model's (zero entries ignored)?
 fn value_matches(got: &Multi, want: &BTreeMap<String, Q>, inexact: bool) -> bool {
     let want: Multi = want.iter().filter(|(_, q)| !q.is_zero()).map(|(c, q)| (c.clone(), *q)).collect();
     if !inexact {
         return got == &want;
     }
-    // inexact: every commodity within 1e-20 relative / 1e-24 absolute. The difference is taken
-    // exactly; only the tolerance test itself is done in floating point.
+    // inexact: every commodity within the error bound the model derived for a 28-place decimal
+    // evaluator (x16: the value may since have been multiplied by the quantity of a priced posting
+    // and negated), plus 1e-27 relative. The difference is taken exactly; only the tolerance test
+    // itself is done in floating point.
+    let err = ERR_BOUND.with(|c| c.get());
     let keys: std::collections::BTreeSet<&String> = got.keys().chain(want.keys()).collect();
     for k in keys {
         let g = got.get(k).copied().unwrap_or(Q::ZERO);
         let w = want.get(k).copied().unwrap_or(Q::ZERO);
         let Some(diff) = g.sub(w) else { return false };
         let f = |q: Q| (q.n as f64 / q.d as f64).abs();
-        let bound = f(w).max(f(g)) * 1e-20 + 1e-24;
+        let bound = err * 16.0 + f(w).max(f(g)) * 1e-27 + 1e-27;
         if f(diff) > bound {
             return false;
         }
@@ -120,6 +127,7 @@ impl C08 {
             rec.count("model-overflow");
             return;
         }
+        ERR_BOUND.with(|c| c.set(tr.err));
         let cls = ops_class(&tr);
         rec.count(&format!("source:{}", source));
         rec.count(&format!("spacing:{}", if spaced { "spaced" } else { "mixed" }));
@@ -396,7 +404,7 @@ impl Check for C08 {
              Each expression is used as Ledger::eval argument, posting amount (sibling must receive the negation), cost `@`/`@@` on 10 AAPL (sibling must \
              receive -(10*rate) / -total), balance assertion (true on its value, false one unit off), lot price (plain amounts only), and a sample through \
              `okane primitive eval`. Oracle: harness/src/model/expr.rs (exact rationals, left fold, commodity typing; three-valued). Values are compared \
-             exactly unless an intermediate result is not representable as a 96-bit/28-place decimal (then 1e-20 relative). Non-trivial = expression with a \
+             exactly unless an intermediate result is not representable as a 96-bit/28-place decimal (then within sixteen times the error bound the model derives for a 28-place decimal evaluator, plus 1e-27 relative). Non-trivial = expression with a \
              specified outcome; distinct by text.",
             n = expr::N_EXHAUSTIVE
         )
